@@ -11,6 +11,7 @@ import QuaiVerif.Driver.Lockup
 import QuaiVerif.Driver.Utxo
 import QuaiVerif.Driver.Mem
 import QuaiVerif.Driver.Ledger
+import QuaiVerif.Driver.Validate
 /- qvdriver: `qvdriver <area>` reads protocol lines on stdin, answers one line per line. -/
 open QuaiVerif
 
@@ -29,6 +30,7 @@ def main (args : List String) : IO UInt32 := do
   | ["lockup"] => ioLoop Lockup.step stdin stdout {}; return 0
   | ["utxo"] => ioLoop Utxo.step stdin stdout {}; return 0
   | ["mem"] => ioLoop Mem.step' stdin stdout (); return 0
+  | ["c07"] => ioLoop Validate.step stdin stdout {}; return 0
   | ["c06"] => ioLoop Ledger.step stdin stdout {}; return 0
   | ["addr"] => ioLoop Addr.step stdin stdout {}; return 0
   | _ => IO.eprintln "usage: qvdriver <area>"; return 2
